@@ -197,8 +197,11 @@ pub fn concretise_field(case: &Value, map: usize) -> (String, Vec<String>) {
         let role = roles[i][0].as_str().unwrap_or("");
         let e = roles[i][1].as_u64().unwrap_or(0); let mut r = roles[i][2].as_u64().unwrap_or(0);
         // "dup" cases: the same alternative twice in an entry - relations built from the same value get the same texts
-        if dup && r == 3 { r = 1; }
-        if dup && r == 2 && case["x"][0]["rels"].as_array().map(|a| a.len()) == Some(2) { r = 1; }
+        // "dupe" cases: the same ENTRY twice (entries 1 and 3): every text of entry 3 is the text of entry 1
+        let dupe = case["dupe"].as_bool() == Some(true);
+        let e = if dupe && e == 3 { 1 } else { e };
+        if dup && !dupe && r == 3 { r = 1; }
+        if dup && !dupe && r == 2 && case["x"][0]["rels"].as_array().map(|a| a.len()) == Some(2) { r = 1; }
         let t = match *k {
             "COLON" => ":".to_string(), "PIPE" => "|".into(), "COMMA" => ",".into(), "L_PARENS" => "(".into(), "R_PARENS" => ")".into(),
             "L_BRACKET" => "[".into(), "R_BRACKET" => "]".into(), "NOT" => "!".into(), "L_ANGLE" => "<".into(), "R_ANGLE" => ">".into(),
